@@ -565,10 +565,11 @@ class AnnotateStream(Stream):
 
 
 import c11s11     # noqa: E402  (needs the helpers above)
+import c11s14     # noqa: E402
 
 PROPERTY = Property(
     pid="C11",
-    streams=[AnnotateStream(), annot_e2e.AnnotateE2EStream()] + c11s11.STREAMS,
+    streams=[AnnotateStream(), annot_e2e.AnnotateE2EStream()] + c11s11.STREAMS + c11s14.STREAMS,
     assumptions=[
         "the header builder (comment creation, template rendering, the post-render check) is a parameter of the model; which "
         "written paths it fails for is the generator's ground truth (multi-line terminator inside the holder, template that drops "
